@@ -116,6 +116,7 @@ def raterunOp (_args impl : List String) : Option (String × String) :=
   let bad := impl.filter fun (t : String) =>
     t = "stopEarly=1" ∨ (t.startsWith "callsAfterStop=" ∧ t ≠ "callsAfterStop=0") ∨ t = "inFnAtStopReturn=1" ∨
     (t.startsWith "callsWithHourlyFrequency=" ∧ t ≠ "callsWithHourlyFrequency=0") ∨ t = "withinOnePerTick=0" ∨
+    t = "callsBeforeStart=1" ∨ t = "firstCallBeforeOneTick=1" ∨ t = "switchedBeforeStartDelay=1" ∨
     t = "calls=0" ∨ t = "someCalls=0" ∨ t = "stop-never-returned" ∨ t = "err"
   some ("-", if impl.isEmpty then "FAIL no-impl-output"
     else match bad with
@@ -124,6 +125,8 @@ def raterunOp (_args impl : List String) : Option (String × String) :=
         if b = "stopEarly=1" then "FAIL Stop-returned-while-the-function-was-executing-or-being-dispatched"
         else if b.startsWith "callsAfterStop" then "FAIL function-invoked-after-Stop-returned"
         else if b.startsWith "callsWithHourly" then "FAIL invoked-under-a-schedule-none-of-whose-ticks-was-due"
+        else if b = "callsBeforeStart=1" ∨ b = "firstCallBeforeOneTick=1" then "FAIL invoked-before-Start-or-for-a-tick-that-elapsed-before-Start"
+        else if b = "switchedBeforeStartDelay=1" then "FAIL moved-to-the-next-schedule-before-its-start-delay-had-run-from-Start"
         else s!"FAIL {b}")
 
 end F1.Drive
